@@ -290,3 +290,67 @@ def add_env_accessors(u, props, props_safety=None):
                  ("same_blocks", "top(*final(self)) == (StackFrame { evalled_values: top(*final(self)).evalled_values, ..top(*old(self)) })"),
                  ("others", rest), ("env_rest", ENVREST)], props=props))
 
+
+
+LSP_SWEEP_DOCS = [
+    ("ascii", "fun foo(x: Int): Int {\n  let y = x + 1\n  y\n}\n\nlet r = foo(2)\nr.abs()\n"),
+    ("astral characters in a string and a comment", "// \U0001F600 café\nfun foo(): String {\n  let s = \"hi \U0001F600\"\n  s\n}\nfoo().len()\n"),
+    ("CRLF line endings with multi-byte text", "fun foo(): Int { 1 }\r\nlet t = (\"世界\U0001F600\", foo())\r\nt.first\r\n"),
+    ("no trailing newline, parse error at the end", "fun foo(): Int { 1 }\nlet é = foo(\"\U0001F600\""),
+    ("empty document", ""),
+    ("only newlines and an astral character", "\n\U0001F600\n\n"),
+]
+LSP_SWEEP_METHODS = ["textDocument/completion", "textDocument/definition", "textDocument/hover", "textDocument/signatureHelp",
+                     "textDocument/documentHighlight", "textDocument/references", "textDocument/rename", "textDocument/codeAction"]
+
+
+def lsp_position_sweep(doc):
+    """LSP messages over `doc`: every position request at every (line, character) of a grid that covers each
+    UTF-16 column of each line (so also the middle of surrogate pairs), two columns past the end of each line,
+    two lines past the end of the document and a very large line / column; then the whole-document requests.
+    Returns (messages, ids of the requests in order)."""
+    uri = "file:///sweep.gdn"
+    msgs = [{"jsonrpc": "2.0", "id": 1, "method": "initialize", "params": {"capabilities": {}}},
+            {"jsonrpc": "2.0", "method": "initialized", "params": {}},
+            {"jsonrpc": "2.0", "method": "textDocument/didOpen", "params": {"textDocument": {"uri": uri, "languageId": "garden", "version": 1, "text": doc}}}]
+    ids = [1]
+    n = 1
+    lines = doc.split("\n")
+    grid = []
+    for li, text in enumerate(lines + ["", ""]):
+        width = len(text.encode("utf-16-le")) // 2
+        for ch in list(range(width + 3)) + [4000000000]:
+            grid.append((li, ch))
+    grid.append((4000000000, 0))
+    for (li, ch) in grid:
+        for meth in LSP_SWEEP_METHODS:
+            n += 1
+            params = {"textDocument": {"uri": uri}, "position": {"line": li, "character": ch}}
+            if meth.endswith("rename"):
+                params["newName"] = "renamed"
+            if meth.endswith("references"):
+                params["context"] = {"includeDeclaration": True}
+            if meth.endswith("codeAction"):
+                params = {"textDocument": {"uri": uri}, "range": {"start": {"line": li, "character": ch}, "end": {"line": li, "character": ch + 1}}, "context": {"diagnostics": []}}
+            msgs.append({"jsonrpc": "2.0", "id": n, "method": meth, "params": params})
+            ids.append(n)
+    for meth in ("textDocument/documentSymbol", "textDocument/formatting"):
+        n += 1
+        msgs.append({"jsonrpc": "2.0", "id": n, "method": meth, "params": {"textDocument": {"uri": uri}, "options": {"tabSize": 2, "insertSpaces": True}}})
+        ids.append(n)
+    n += 1
+    msgs.append({"jsonrpc": "2.0", "id": n, "method": "shutdown"})
+    ids.append(n)
+    return msgs, ids
+
+
+def lsp_sweep_witnesses(match, props):
+    out = []
+    for what, doc in LSP_SWEEP_DOCS:
+        msgs, ids = lsp_position_sweep(doc)
+        oracle = ("(lambda got, n: '' if got == list(range(1, n + 1)) else 'responses carry ids %r...; expected exactly one for each of the requests 1..%d, in order (first difference at index %d)' "
+                  "% (got[:6], n, next((i for i, (a, b) in enumerate(zip(got + [None], list(range(1, n + 1)) + [None])) if a != b), -1)))"
+                  "([o.get('id') for o in jsons(full_out) if 'id' in o and 'method' not in o], " + str(len(ids)) + ")")
+        out.append({"match": match, "kind": "lsp", "props": list(props), "input": msgs, "expect": {"py": oracle}, "timeout": 300,
+                    "note": "position sweep, %s: %d requests" % (what, len(ids))})
+    return out
